@@ -18,7 +18,10 @@ CFG = {
                          "AccountProperties / AccountNumber / AccountName / next address of every branch agree with a restarted wallet; NewAddress / NewChangeAddress "
                          "return what a restarted wallet returns. PARTIAL: AddressInfo/HaveAddress (false for addresses of rolled-back transactions, F9: open finding "
                          "C08 key=CreateSimpleTxDryRun.address-cache-not-reverted, theorem C08_wallet_counterexample_dryrun_address_cache; hence the suffix of "
-                         "C08_wallet_committed_eq_reopen_partial). No longer partial: Unlock after ImportAccountDryRun failed with ErrAccountNotFound until restart "
+                         "C08_wallet_committed_eq_reopen_partial); and a failed COMMIT of ImportAccount / RenameAccount (eager cache mutators, hypothesis NoEagerCommitFail of the "
+                         "history theorems, counter-examples C08_wallet_counterexample_import_commit_failed / _rename_commit_failed, oracle keys <WalletOp>.commit-failed.*). "
+                         "Failed commits of NewAddress / NewChangeAddress / CreateSimpleTx ARE covered (injected by a walletdb decorator, op flag cf=1; "
+                         "C08_wallet_failed_keeps_next_partial: indices do not move). No longer partial: Unlock after ImportAccountDryRun failed with ErrAccountNotFound until restart "
                          "and the dry-run account's preview addresses stayed cached - fixed in /repo 4e25286 (InvalidateAccountCache also drops the account's cached "
                          "addresses and derive-on-unlock entries); the model follows the fixed code, C08_wallet_counterexample_unfixed_dryrun_unlock / "
                          "_unfixed_importdry_address_cache state the defect for a tree before that commit, and reverting it yields the oracle keys "
